@@ -271,6 +271,8 @@ def check_element(ctx, case):
             if M.mass(iso) != im or not ctx.close(M.abundance(iso), want, rel=1e-12):
                 ctx.violation('mass.mass/abundance(%s[%d]) = %r, %r; table %r, %r'
                               % (sym, A, M.mass(iso), M.abundance(iso), im, want), A=A)
+    if Z == 1:
+        _check_dt_aliases(ctx, T, tname, m, rho, em, ab)
     if m.isotopes.get(Z):
         ctx.distinct_case((tname, Z, 'isotopes'))
     if ab:
@@ -289,6 +291,41 @@ def check_element(ctx, case):
         ctx.evaluated(what='composition')
         if total != 0:
             ctx.violation('%s is not in the composition table but abundances sum to %r' % (sym, total))
+
+
+def _check_dt_aliases(ctx, T, tname, m, rho, em, ab):
+    """D and T are H[2] and H[3] under names of their own: whichever documented way leads to them (attribute of the
+    table, lookup by name, by symbol, by isotope string, the package-level names), the object served carries the
+    mass, abundance and density of that nuclide."""
+    import periodictable as pt
+    for A, sym, name in ((2, 'D', 'deuterium'), (3, 'T', 'tritium')):
+        im = m.iso[(1, A)][0]
+        want_ab = ab[A][0] if (ab and A in ab) else 0
+        routes = [('table.%s' % sym, lambda: getattr(T, sym)),
+                  ('table.name(%r)' % name, lambda: T.name(name)),
+                  ('table.symbol(%r)' % sym, lambda: T.symbol(sym)),
+                  ('table.isotope(%r)' % sym, lambda: T.isotope(sym)),
+                  ('table.isotope(%r)' % ('%d-H' % A), lambda: T.isotope('%d-H' % A)),
+                  ('table[1][%d]' % A, lambda: T[1][A])]
+        if T is pt.elements:
+            routes += [('periodictable.%s' % sym, lambda: getattr(pt, sym)),
+                       ('periodictable.%s' % name, lambda: getattr(pt, name))]
+        for label, get in routes:
+            ctx.evaluated(3, 'dt-alias-routes')
+            ctx.count('dt_alias_routes')
+            try:
+                a = get()
+                got = (a.mass, a.abundance, a.density)
+            except Exception as exc:
+                ctx.violation('%s (%s table): reading mass/abundance/density raised %s: %s'
+                              % (label, tname, type(exc).__name__, exc), field='dt-alias', route=label)
+                continue
+            want = (im, want_ab, None if rho is None else rho * im / em)
+            ok = got[0] == want[0] and ctx.close(got[1], want[1], rel=1e-12) and \
+                ((got[2] is None) == (want[2] is None)) and (want[2] is None or ctx.close(got[2], want[2], rel=1e-14))
+            if not ok:
+                ctx.violation('%s (%s table) serves mass, abundance, density %r; the tables give %r for H[%d]'
+                              % (label, tname, got, want, A), field='dt-alias', route=label)
 
 
 def setup_variant_for_replay(ctx, tname):
